@@ -24,5 +24,5 @@ m['verif_result']={'check':'./check %s --tier quick'%pid,'exit':int(rc),'verdict
 json.dump(m,open(p,'w'),indent=1)
 print(pid, 'CAUGHT' if m['verif_result']['caught'] else 'MISSED', last)
 PY
-# restore evidence of the unchanged tree for this property
-./check $PID --tier quick >/dev/null 2>&1
+# restore evidence of the unchanged tree for this property (seed_all.sh does it once at the end: SEED_NO_RESTORE=1)
+[ -n "${SEED_NO_RESTORE:-}" ] || ./check $PID --tier quick >/dev/null 2>&1
